@@ -387,7 +387,7 @@ Proof.
 Qed.
 
 (* (i) summary: at each listed time the number of listed nodes whose node_status is s *)
-Lemma summary_spec iv ps tmin l : iv_ps iv = Some ps -> l <> [] ->
+Lemma summary_spec iv ps tmin l : possible_statuses iv = ps -> l <> [] ->
   (forall u, In u l -> exists h, hist_of iv u = Ok h /\ wf_histb ps tmin h = true) ->
   exists rows, summary iv (Some l) = Ok rows /\ rows <> [] /\ StronglySorted Qlt (map fst rows) /\
     (forall t cs, In (t, cs) rows -> tmin <= t /\ cs = map (count_at iv l t) ps) /\
@@ -395,7 +395,7 @@ Lemma summary_spec iv ps tmin l : iv_ps iv = Some ps -> l <> [] ->
     (forall u h x, In u l -> hist_of iv u = Ok h -> In x h -> exists t, In t (map fst rows) /\ t == fst x).
 Proof.
   intros Hps Hl H. destruct (all_entries_spec iv ps tmin l H) as [es [Ees [D1 [D2 D3]]]].
-  unfold summary, possible_statuses. rewrite Hps. cbn [rbind]. rewrite Ees. cbn [rbind].
+  unfold summary. rewrite Hps. cbn zeta. rewrite Ees. cbn [rbind].
   assert (Hne : times_of es <> []).
   { destruct l as [|u l']; [contradiction|]. destruct (H u (or_introl eq_refl)) as [h [Eh Wh]].
     destruct h as [|x r]; [discriminate|]. destruct (D3 u (x :: r) x (or_introl eq_refl) Eh (or_introl eq_refl)) as [e [He _]].
@@ -450,12 +450,12 @@ Proof.
 Qed.
 
 (* S(), I(), R(), t() are the columns of summary() *)
-Lemma column_spec iv ps rows s : iv_ps iv = Some ps -> summary iv None = Ok rows ->
+Lemma column_spec iv ps rows s : possible_statuses iv = ps -> summary iv None = Ok rows ->
   iv_t iv = Ok (map fst rows) /\
   (forall i, index_of s ps = Some i -> column iv s = Ok (map (fun r => nth i (snd r) 0%Z) rows)) /\
   (index_of s ps = None -> column iv s = Err EoNError).
 Proof.
-  intros Hps Hr. unfold iv_t, column, possible_statuses. rewrite Hr, Hps. cbn [rbind].
+  intros Hps Hr. unfold iv_t, column. rewrite Hr, Hps. cbn [rbind].
   split; [reflexivity|]. split; [intros i Hi; rewrite Hi; reflexivity|intro Hi; rewrite Hi; reflexivity].
 Qed.
 
@@ -477,16 +477,15 @@ Proof.
 Qed.
 
 Lemma consistent_sound iv arrays tmin mv : consistent_b iv arrays tmin mv = true ->
-  exists ps rows, possible_statuses iv = Ok ps /\
-    (forall u, In u (iv_nodes iv) -> exists h, hist_of iv u = Ok h /\ good_histb ps mv tmin h = true) /\
+  exists rows,
+    (forall u, In u (iv_nodes iv) -> exists h, hist_of iv u = Ok h /\ good_histb (possible_statuses iv) mv tmin h = true) /\
     summary iv None = Ok rows /\ same_series rows arrays = true.
 Proof.
   unfold consistent_b, consistent. intro H.
-  destruct (possible_statuses iv) as [ps|e]; [|discriminate].
-  destruct (first_bad_hist iv ps mv tmin (iv_nodes iv)) as [u|] eqn:Eb; [discriminate|].
+  destruct (first_bad_hist iv (possible_statuses iv) mv tmin (iv_nodes iv)) as [u|] eqn:Eb; [discriminate|].
   destruct (summary iv None) as [rows|e] eqn:Es; [|discriminate].
   destruct (first_diff rows arrays) as [t|] eqn:Ed; [discriminate|].
-  exists ps, rows. split; [reflexivity|]. split; [apply first_bad_hist_none; exact Eb|]. split; [reflexivity|].
+  exists rows. split; [apply first_bad_hist_none; exact Eb|]. split; [reflexivity|].
   unfold same_series. apply forallb_forall. intros t Ht. unfold first_diff in Ed.
   pose proof (find_none _ _ Ed t Ht) as K. cbn in K. apply negb_false_iff in K. exact K.
 Qed.
@@ -954,17 +953,16 @@ Qed.
 
 (* acceptance: the histories are legal and, at every change time, the returned time
    series (read as a step function) gives the number of nodes by node_status *)
-Lemma consistent_meaning iv arrays tmin mv ps : iv_ps iv = Some ps -> consistent_b iv arrays tmin mv = true ->
+Lemma consistent_meaning iv arrays tmin mv ps : possible_statuses iv = ps -> consistent_b iv arrays tmin mv = true ->
   (forall u, In u (iv_nodes iv) -> exists h, hist_of iv u = Ok h /\ good_histb ps mv tmin h = true) /\
   exists rows, summary iv None = Ok rows /\
     (forall u h x, In u (iv_nodes iv) -> hist_of iv u = Ok h -> In x h -> exists t, In t (map fst rows) /\ t == fst x) /\
     forall t, In t (map fst rows) -> step_at arrays t None = Some (map (count_at iv (iv_nodes iv) t) ps).
 Proof.
-  intros Hps H. destruct (consistent_sound iv arrays tmin mv H) as [ps' [rows [Eps [Hg [Es Ss]]]]].
-  unfold possible_statuses in Eps. rewrite Hps in Eps. inversion Eps; subst ps'. clear Eps.
+  intros Hps H. destruct (consistent_sound iv arrays tmin mv H) as [rows [Hg [Es Ss]]]. rewrite Hps in Hg.
   split; [exact Hg|]. exists rows. split; [exact Es|].
   assert (Hne : iv_nodes iv <> []).
-  { intro E. rewrite summary_all, E in Es. unfold summary, possible_statuses in Es. rewrite Hps in Es. cbn in Es. discriminate. }
+  { intro E. rewrite summary_all, E in Es. unfold summary in Es. cbn in Es. discriminate. }
   assert (Hwf : forall u, In u (iv_nodes iv) -> exists h, hist_of iv u = Ok h /\ wf_histb ps tmin h = true).
   { intros u Hu. destruct (Hg u Hu) as [h [Eh G]]. exists h. split; [exact Eh|]. unfold good_histb in G. apply andb_true_iff in G. exact (proj1 G). }
   destruct (summary_spec iv ps tmin (iv_nodes iv) Hps Hne Hwf) as [rows' [Er [_ [Rs [R4 [_ R6]]]]]].
@@ -975,4 +973,214 @@ Proof.
   specialize (Ss t Hin'). rewrite (step_at_row rows t cs None Rs Hin) in Ss.
   destruct (step_at arrays t None) as [cs'|]; [|discriminate]. cbn in Ss. apply zlist_eqb_eq in Ss. subst cs'.
   f_equal. exact (proj2 (R4 t cs Hin)).
+Qed.
+
+(* ---------------- the default possible statuses ---------------- *)
+Lemma dedupN_In l : forall seen s, In s (dedupN l seen) <-> In s l /\ ~ In s seen.
+Proof.
+  induction l as [|a l IH]; intros seen s; cbn; [tauto|].
+  destruct (mem a seen) eqn:Hm.
+  - apply memb_In in Hm. rewrite IH. split.
+    + intros [H1 H2]. split; [right; exact H1|exact H2].
+    + intros [[H1|H1] H2]; [subst; contradiction|split; assumption].
+  - assert (~ In a seen) as Hn by (intro K; apply memb_In in K; rewrite K in Hm; discriminate).
+    cbn. rewrite IH. cbn. split.
+    + intros [H|[H1 H2]]; [subst; split; [left; reflexivity|exact Hn]|].
+      split; [right; exact H1|]. intro H3. apply H2. right. exact H3.
+    + intros [[H1|H1] H2]; [left; exact H1|].
+      destruct (N.eq_dec a s) as [E|E]; [left; exact E|].
+      right. split; [exact H1|]. intros [H3|H3]; [exact (E H3)|exact (H2 H3)].
+Qed.
+
+Lemma dedupN_NoDup l : forall seen, NoDup (dedupN l seen).
+Proof.
+  induction l as [|a l IH]; intros seen; cbn; [constructor|].
+  destruct (mem a seen); [apply IH|].
+  constructor; [|apply IH]. rewrite dedupN_In. intros [_ H]. apply H. left. reflexivity.
+Qed.
+
+(* possible_statuses=None: each status that occurs in a recorded history, once; the
+   order is not part of the statement *)
+Lemma possible_statuses_default iv : iv_ps iv = None ->
+  NoDup (possible_statuses iv) /\
+  forall s, In s (possible_statuses iv) <-> exists u h e, In (u, h) (iv_hist iv) /\ In e h /\ snd e = s.
+Proof.
+  intro H. unfold possible_statuses, statuses_in. rewrite H. split; [apply dedupN_NoDup|].
+  intro s. rewrite dedupN_In, in_flat_map. split.
+  - intros [[[u h] [Hin Hs]] _]. cbn in Hs. apply in_map_iff in Hs. destruct Hs as [e [Ee He]]. exists u, h, e. auto.
+  - intros [u [h [e [Hin [He Es]]]]]. split; [|intros []]. exists (u, h). split; [exact Hin|]. cbn. apply in_map_iff. exists e. auto.
+Qed.
+
+(* each entry of a row belongs to one status: nothing depends on the order of the statuses *)
+Lemma summary_entry iv ps tmin l rows : possible_statuses iv = ps -> l <> [] ->
+  (forall u, In u l -> exists h, hist_of iv u = Ok h /\ wf_histb ps tmin h = true) ->
+  summary iv (Some l) = Ok rows ->
+  forall t cs i s, In (t, cs) rows -> nth_error ps i = Some s -> nth_error cs i = Some (count_at iv l t s).
+Proof.
+  intros Hps Hl H Er t cs i s Hin Hi.
+  destruct (summary_spec iv ps tmin l Hps Hl H) as [rows' [Er' [_ [_ [R4 _]]]]].
+  rewrite Er in Er'. inversion Er'; subst rows'. rewrite (proj2 (R4 t cs Hin)). apply map_nth_error. exact Hi.
+Qed.
+
+(* ---------------- the objects the simulators build vs. the object of a log ---------------- *)
+(* summary only looks at hist_of of the listed nodes *)
+Lemma all_entries_ext iv iv' ps : forall l, (forall u, In u l -> hist_of iv u = hist_of iv' u) ->
+  all_entries iv ps l = all_entries iv' ps l.
+Proof.
+  induction l as [|u l IH]; intro H; [reflexivity|]. cbn. rewrite (H u (or_introl eq_refl)), IH; [reflexivity|].
+  intros v Hv. apply H. right. exact Hv.
+Qed.
+
+Lemma summary_ext iv iv' : iv_nodes iv = iv_nodes iv' -> possible_statuses iv = possible_statuses iv' ->
+  (forall u, In u (iv_nodes iv) -> hist_of iv u = hist_of iv' u) ->
+  summary iv None = summary iv' None.
+Proof.
+  intros Hn Hp Hh. unfold summary. rewrite <- Hp, <- Hn. cbn zeta.
+  rewrite (all_entries_ext iv iv' (possible_statuses iv) (iv_nodes iv) Hh). reflexivity.
+Qed.
+
+(* the events of one node, as history entries *)
+Definition events_of_node (log : list event) (u : node) : history := map pe (filter (of_node u) log).
+
+(* SIR: how the tables infection_times / recovery_times handed to
+   _transform_to_node_history_ relate to the initial status and the events of a node:
+   initially infected (recovered) nodes carry the infection (recovery) time tmin *)
+Definition sir_tables_ok (tmin : Q) (s0 : N) (evs : history) (ti tr : option Q) : Prop :=
+  (s0 = stS /\ evs = [] /\ ti = None /\ tr = None) \/
+  (s0 = stS /\ exists a, evs = [(a, stI)] /\ ti = Some a /\ tr = None) \/
+  (s0 = stS /\ exists a b, evs = [(a, stI); (b, stR)] /\ ti = Some a /\ tr = Some b) \/
+  (s0 = stI /\ evs = [] /\ ti = Some tmin /\ tr = None) \/
+  (s0 = stI /\ exists b, evs = [(b, stR)] /\ ti = Some tmin /\ tr = Some b) \/
+  (s0 = stR /\ evs = [] /\ ti = None /\ tr = Some tmin).
+
+Lemma events_after tmin log u : increasing tmin log = true ->
+  forall x, In x (events_of_node log u) -> Qeqb (fst x) tmin = false.
+Proof.
+  intros Hinc x Hx. unfold events_of_node in Hx. apply in_map_iff in Hx. destruct Hx as [e [Ex He]]. apply filter_In in He.
+  pose proof (increasing_sorted log tmin Hinc) as Hs. destruct (StronglySorted_inv Hs) as [_ K]. rewrite Forall_forall in K.
+  assert (tmin < ev_t e) as Hlt by (apply K; apply in_map; exact (proj1 He)).
+  subst x. cbn. apply qeqb_f. intro E. rewrite E in Hlt. exact (Qlt_irrefl _ Hlt).
+Qed.
+
+Lemma investigation_SIR_hist nodes tmin init log inf rec u : increasing tmin log = true ->
+  NoDup (map fst inf) -> NoDup (map fst rec) ->
+  sir_tables_ok tmin (init u) (events_of_node log u) (assoc inf u) (assoc rec u) ->
+  hist_of (investigation_SIR nodes tmin inf rec) u = Ok (project tmin init log u).
+Proof.
+  intros Hinc Hi Hr Hok. unfold hist_of, investigation_SIR. cbn [iv_hist iv_default].
+  rewrite (transform_SIR_spec tmin inf rec u Hi Hr), project_eq. fold (events_of_node log u).
+  pose proof (events_after tmin log u Hinc) as Haft.
+  assert (Rf : Qeqb tmin tmin = true) by (apply qeqb_t; reflexivity).
+  destruct Hok as [[E0 [Ee [Ei Er]]]|[[E0 [a [Ee [Ei Er]]]]|[[E0 [a [b [Ee [Ei Er]]]]]|[[E0 [Ee [Ei Er]]]|[[E0 [b [Ee [Ei Er]]]]|[E0 [Ee [Ei Er]]]]]]]];
+    rewrite E0, Ee, Ei, Er; rewrite Ee in Haft; unfold sir_history.
+  - reflexivity.
+  - pose proof (Haft (a, stI) (or_introl eq_refl)) as Ka. cbn [fst] in Ka. rewrite Ka. reflexivity.
+  - pose proof (Haft (a, stI) (or_introl eq_refl)) as Ka. pose proof (Haft (b, stR) (or_intror (or_introl eq_refl))) as Kb.
+    cbn [fst] in Ka, Kb. rewrite Ka, Kb. reflexivity.
+  - rewrite Rf. reflexivity.
+  - pose proof (Haft (b, stR) (or_introl eq_refl)) as Kb. cbn [fst] in Kb. rewrite Rf, Kb. reflexivity.
+  - rewrite Rf. reflexivity.
+Qed.
+
+(* hence the summary of what the SIR simulators construct is the array of the log *)
+Lemma investigation_SIR_summary nodes tmin init log inf rec :
+  log_okb nodes [stS; stI; stR] tmin init log = true ->
+  NoDup (map fst inf) -> NoDup (map fst rec) ->
+  (forall u, In u nodes -> sir_tables_ok tmin (init u) (events_of_node log u) (assoc inf u) (assoc rec u)) ->
+  (forall u, In u nodes -> hist_of (investigation_SIR nodes tmin inf rec) u = Ok (project tmin init log u)) /\
+  summary (investigation_SIR nodes tmin inf rec) None = Ok (log_arrays nodes [stS; stI; stR] tmin init log).
+Proof.
+  intros Hok Hi Hr Ht.
+  assert (Hinc : increasing tmin log = true).
+  { unfold log_okb in Hok. rewrite !andb_true_iff in Hok. tauto. }
+  assert (Hh : forall u, In u nodes -> hist_of (investigation_SIR nodes tmin inf rec) u = Ok (project tmin init log u)).
+  { intros u Hu. apply investigation_SIR_hist; try assumption. apply Ht. exact Hu. }
+  split; [exact Hh|]. rewrite <- (log_lemma nodes [stS; stI; stR] tmin init log Hok).
+  apply summary_ext; [reflexivity|reflexivity|]. intros u Hu. cbn [iv_nodes investigation_SIR] in Hu.
+  rewrite (Hh u Hu). symmetry. apply log_hist_of. exact Hu.
+Qed.
+
+(* SIS: the entries sis_hist appends for infection times its and recovery times rts *)
+Fixpoint interleave (its rts : list Q) : history :=
+  match its with
+  | [] => []
+  | t :: its' => match rts with
+                 | [] => (t, stI) :: interleave its' []
+                 | r :: rts' => (t, stI) :: (r, stS) :: interleave its' rts'
+                 end
+  end.
+
+Lemma sis_hist_app tmin : forall its rts h, (forall t, In t its -> Qeqb t tmin = false) ->
+  sis_hist tmin its rts h = h ++ interleave its rts.
+Proof.
+  induction its as [|t its IH]; intros rts h H; [cbn; rewrite app_nil_r; reflexivity|].
+  cbn [sis_hist interleave]. rewrite (H t (or_introl eq_refl)).
+  assert (H' : forall x, In x its -> Qeqb x tmin = false) by (intros x Hx; apply H; right; exact Hx).
+  destruct rts as [|r rts].
+  - rewrite (IH [] _ H'), <- app_assoc. reflexivity.
+  - rewrite (IH rts _ H'), <- !app_assoc. reflexivity.
+Qed.
+
+(* a node that starts susceptible has infection times its (all after tmin); a node that
+   starts infected has the infection time tmin in front *)
+Definition sis_tables_ok (tmin : Q) (s0 : N) (evs : history) (its : option (list Q)) (rts : list Q) : Prop :=
+  (s0 = stS /\ evs = [] /\ (its = None \/ its = Some [])) \/
+  (s0 = stS /\ exists l, its = Some l /\ l <> [] /\ evs = interleave l rts) \/
+  (s0 = stI /\ exists l, its = Some (tmin :: l) /\ (tmin, stI) :: evs = interleave (tmin :: l) rts).
+
+Lemma interleave_times its rts : forall t, In t its -> exists x, In x (interleave its rts) /\ fst x = t.
+Proof.
+  revert rts. induction its as [|a its IH]; intros rts t Ht; [destruct Ht|].
+  destruct rts as [|r rts]; cbn [interleave]; (destruct Ht as [Ht|Ht]; [subst; eexists; split; [left; reflexivity|reflexivity]|]).
+  - destruct (IH [] t Ht) as [x [Hx Ex]]. exists x. split; [right; exact Hx|exact Ex].
+  - destruct (IH rts t Ht) as [x [Hx Ex]]. exists x. split; [right; right; exact Hx|exact Ex].
+Qed.
+
+Lemma investigation_SIS_hist nodes tmin init log inf rec u : increasing tmin log = true ->
+  NoDup (map fst inf) ->
+  sis_tables_ok tmin (init u) (events_of_node log u) (assoc inf u) (rts_of rec u) ->
+  hist_of (investigation_SIS nodes tmin inf rec) u = Ok (project tmin init log u).
+Proof.
+  intros Hinc Hi Hok. unfold hist_of, investigation_SIS. cbn [iv_hist iv_default].
+  rewrite (transform_SIS_spec tmin inf rec u Hi), project_eq. fold (events_of_node log u).
+  pose proof (events_after tmin log u Hinc) as Haft.
+  destruct Hok as [[E0 [Ee Ei]]|[[E0 [l [Ei [Hl Ee]]]]|[E0 [l [Ei Ee]]]]]; rewrite E0.
+  - rewrite Ee. destruct Ei as [Ei|Ei]; rewrite Ei; reflexivity.
+  - rewrite Ei. destruct l as [|t l]; [contradiction|]. rewrite sis_hist_app.
+    + rewrite Ee. reflexivity.
+    + intros x Hx. destruct (interleave_times (t :: l) (rts_of rec u) x Hx) as [y [Hy Ey]]. rewrite <- Ee in Hy.
+      rewrite <- Ey. apply Haft. exact Hy.
+  - rewrite Ei. cbn [sis_hist]. rewrite (proj2 (qeqb_t tmin tmin) (Qeq_refl _)). cbn [app].
+    assert (Hl : forall x, In x l -> Qeqb x tmin = false).
+    { intros x Hx. destruct (interleave_times (tmin :: l) (rts_of rec u) x (or_intror Hx)) as [y [Hy Ey]].
+      rewrite <- Ee in Hy. destruct Hy as [Hy|Hy].
+      - (* x would be the initial entry itself only if x = tmin is listed again: then it is an event time, impossible *)
+        subst y. cbn in Ey. subst x.
+        exfalso. clear - Ee Hx Haft.
+        cbn [interleave] in Ee. destruct (rts_of rec u) as [|r rts].
+        + inversion Ee as [E1]. destruct (interleave_times l [] tmin Hx) as [y [Hy Ey]]. rewrite <- E1 in Hy.
+          pose proof (Haft y Hy) as K. rewrite Ey in K. rewrite (proj2 (qeqb_t tmin tmin) (Qeq_refl _)) in K. discriminate.
+        + inversion Ee as [E1]. destruct (interleave_times l rts tmin Hx) as [y [Hy Ey]].
+          assert (In y (events_of_node log u)) as Hy' by (rewrite E1; right; exact Hy).
+          pose proof (Haft y Hy') as K. rewrite Ey in K. rewrite (proj2 (qeqb_t tmin tmin) (Qeq_refl _)) in K. discriminate.
+      - rewrite <- Ey. apply Haft. exact Hy. }
+    cbn [interleave] in Ee. destruct (rts_of rec u) as [|r rts].
+    + inversion Ee as [E1]. rewrite (sis_hist_app tmin l [] _ Hl), E1. reflexivity.
+    + inversion Ee as [E1]. rewrite (sis_hist_app tmin l rts _ Hl), E1. reflexivity.
+Qed.
+
+Lemma investigation_SIS_summary nodes tmin init log inf rec :
+  log_okb nodes [stS; stI] tmin init log = true -> NoDup (map fst inf) ->
+  (forall u, In u nodes -> sis_tables_ok tmin (init u) (events_of_node log u) (assoc inf u) (rts_of rec u)) ->
+  (forall u, In u nodes -> hist_of (investigation_SIS nodes tmin inf rec) u = Ok (project tmin init log u)) /\
+  summary (investigation_SIS nodes tmin inf rec) None = Ok (log_arrays nodes [stS; stI] tmin init log).
+Proof.
+  intros Hok Hi Ht.
+  assert (Hinc : increasing tmin log = true).
+  { unfold log_okb in Hok. rewrite !andb_true_iff in Hok. tauto. }
+  assert (Hh : forall u, In u nodes -> hist_of (investigation_SIS nodes tmin inf rec) u = Ok (project tmin init log u)).
+  { intros u Hu. apply investigation_SIS_hist; try assumption. apply Ht. exact Hu. }
+  split; [exact Hh|]. rewrite <- (log_lemma nodes [stS; stI] tmin init log Hok).
+  apply summary_ext; [reflexivity|reflexivity|]. intros u Hu. cbn [iv_nodes investigation_SIS] in Hu.
+  rewrite (Hh u Hu). symmetry. apply log_hist_of. exact Hu.
 Qed.
